@@ -149,9 +149,9 @@ CHECKS["C20"] = {
             "symbolic duration >= 0 and fails or succeeds by a symbolic boolean, and a model clock: context.WithTimeout / time.After are model "
             "channels with a fire time and the SSA select picks any channel ready at the earliest fire time; asserted: first success returned "
             "as the very objects and no later call, every wait > 0 and <= MaxRetryDelay, no attempt starts after the deadline, on persistent "
-            "failure an error by the deadline or the end of the attempt in flight, attempts <= K H20d: 40 attempts (maximum delay 1..1000 ns, calls take no time): waits stay > 0 and <= the maximum beyond the 32nd doubling; H20e: a getter value used before (any time ago) still retries and returns a success that comes inside its timeout",
-    "bounds": {"attempts": "K = 6 quick, 12 thorough (unwinding assertion; Timeout <= (K-2)*min(4s, MaxRetryDelay)); 40 attempts in H20d with MaxRetryDelay <= 1000 ns", "MaxRetryDelay": "> 0"},
-    "outside": ["MaxRetryDelay <= 0 (busy loop / probabilistic termination: the statement's two requirements contradict each other there)",
+            "failure an error by the deadline or the end of the attempt in flight, attempts <= K H20d: 40 attempts (maximum delay 1..1000 ns, calls take no time): waits stay > 0 and <= the maximum beyond the 32nd doubling; H20e: a getter value used before (any time ago) still retries and returns a success that comes inside its timeout; H20f: MaxRetryDelay == 0: every wait between the first 5 attempts is 0 (the cap holds), a first success is returned intact",
+    "bounds": {"attempts": "K = 6 quick, 12 thorough (unwinding assertion; Timeout <= (K-2)*min(4s, MaxRetryDelay)); 40 attempts in H20d with MaxRetryDelay <= 1000 ns; the first 5 attempts in H20f", "MaxRetryDelay": "> 0; == 0 for the cap and the intact-success assertions only (H20f)"},
+    "outside": ["MaxRetryDelay < 0; for MaxRetryDelay == 0 the no-busy-loop and bounded-time requirements (a wait can be neither longer than 0 nor positive, and termination is probabilistic when the deadline and a 0-delay timer are ready together)",
                 "wall-clock behaviour of the real runtime and scheduler", "overflow of the running sum delay + delay (needs > 2^32 s of waiting)",
                 "more than 40 consecutive failures"],
     "assumptions": ["Go select semantics: blocks until a case is ready, picks any ready case (model)", "context.WithTimeout's Done channel fires at the deadline (model)",
@@ -185,7 +185,7 @@ CHECKS["C01"] = {
             "verified again - the links must hold for what it now contains. H01h: the "
             "message's integer fields are unconstrained uint32 (not pre-truncated to their wire width): an accepted message has no bit outside the wire format",
     "bounds": {"qe_auth_data_length": "{0, 1, 32, 33} quick, + {31, 64} thorough", "trusted_pool": "nil / 1 / 2 certificates", "history": "2 verifications"},
-    "outside": ["that ECDSA / SHA-256 are unforgeable / collision free (the 'no bit can change' corollary is cryptographic)"],
+    "outside": ["that ECDSA / SHA-256 are unforgeable / collision free (the 'no bit can change' corollary is cryptographic)", "PCK leaf keys that are not ECDSA keys (every model certificate carries an *ecdsa.PublicKey object; seeded change C01M ends inconclusive)", "Unicode case folding over the report data (seeded change C01N, bytes.EqualFold: the run does not finish and has to be stopped by the caller's time limit)"],
     "assumptions": PKI_ASSUME,
 }
 
@@ -238,7 +238,7 @@ CHECKS["C05"] = {
             "serial not in the PCK CRL, intermediate / TCB-Info signer / QE-Identity signer serials not in the Root CA CRL; revocation without "
             "collateral always fails and fetches nothing H05g: the same conditions on an options value that verified the quote before (collateral only); H05h: an options value that fetched collateral before and is switched to revocation-without-collateral fails and fetches nothing",
     "bounds": {"revoked_entries_per_crl": "0..1 quick, 0..3 thorough", "distribution_points": "0..2 quick, 3 thorough", "serials": "64-bit symbolic"},
-    "outside": ["serial numbers wider than 64 bits", "CRL parsing itself (contract stub)"],
+    "outside": ["serial numbers wider than 64 bits; byte / text forms of serial numbers (big.Int.Bytes / Text are not modelled: seeded change C05N ends inconclusive)", "CRL parsing itself (contract stub)"],
     "assumptions": PKI_ASSUME + ["RevocationList.CheckSignatureFrom nil iff CrlSigBy(crl, parent key)", "big.Int.Cmp compares the serial values"],
 }
 
@@ -252,7 +252,7 @@ CHECKS["C06"] = {
             "artifact is not past its limit at ITS OWN time-set entry and path elements are inside their validity window; also with Options.Now nil "
             "(time.Now stubbed by a symbolic wall clock) H06g (T06h with revocation): the same conditions on an options value that verified the same quote at earlier, unrelated times",
     "bounds": {"times": "0..2^40 s, all symbolic"},
-    "outside": ["wall-clock reads between the five time.Now() calls of defaultTimeSet are one instant in the model"],
+    "outside": ["wall-clock reads between the five time.Now() calls of defaultTimeSet are one instant in the model", "time arithmetic that divides by 1e9 (Truncate / Round / Unix on symbolic instants: solver unknown, seeded change C06M ends inconclusive)", "maps keyed by symbolic strings (seeded change C06N ends inconclusive)"],
     "assumptions": PKI_ASSUME + ["time.Time.After/Before/Equal executed for real (merged)"],
 }
 
@@ -334,6 +334,6 @@ CHECKS["C19"] = {
     "bounds": {"config": "absent / present; policy absent, {}, header only, body only, both; root_of_trust absent / present",
                "flags": "check_crl, get_collateral in {unset, true, false, malformed}; minimum_qe_svn in {unset, 7, 0x10, 2^32, zz}; qe_vendor_id / mr_seam unset or set; rtmrs {unset, valid, bad hex}; trusted_roots unset / one path",
                "verdicts": "verify: ok / plain error / collateral download error / CRL download error; policy conversion and validation ok / error"},
-    "outside": ["what prototext / proto decoding accepts as a well-formed config (contract stub: seeded change C19L, DiscardUnknown, passes)", "the real flag parsing, real protobuf decoding, process exit status and stderr of the built binary"],
+    "outside": ["what prototext / proto decoding accepts as a well-formed config beyond the contract 'a text config naming an unknown field is rejected unless DiscardUnknown is set' (H19e; reports seeded change C19L)", "the real flag parsing, real protobuf decoding, process exit status and stderr of the built binary"],
     "assumptions": PKI_ASSUME + ["errors.As walks %w / multierr wrapping; fmt.Errorf wraps exactly the operands of %w"],
 }
